@@ -15,10 +15,12 @@
 package main
 
 import (
+	"bufio"
 	"encoding/json"
 	"flag"
 	"fmt"
 	"os"
+	"strconv"
 
 	"github.com/zalf-rpm/Hermes2Go/hermes"
 )
@@ -341,4 +343,68 @@ func splitLinesKeep(s string) []string {
 		out = append(out, cur)
 	}
 	return out
+}
+
+// ---------------------------------------------------------------------------------------------
+//	vh measstate -jobs <file.json> [-from k]
+// jobs: [{"id":..,"file":path,"csv":bool,"ident":"ALLE","n":17,"fmt":1,"cent":60,"w":[hex..],"wmin":[hex..]}] -> what the REAL
+// ExtractMeasuredDataTxt / ExtractMeasuredDataCSV leave: {"id":..,"nmess":..,"mes":"..","mess":..,"f":[WG[2][0..N], WNZ[0],
+// KNZ1..6[0], CN[1][0..N-1]]}
+
+func init() { commands["measstate"] = measStateCmd }
+
+type measJob struct {
+	ID    int      `json:"id"`
+	File  string   `json:"file"`
+	CSV   bool     `json:"csv"`
+	Ident string   `json:"ident"`
+	N     int      `json:"n"`
+	Fmt   int      `json:"fmt"`
+	Cent  int      `json:"cent"`
+	W     []string `json:"w"`
+	WMIN  []string `json:"wmin"`
+}
+
+func measStateCmd(args []string) {
+	fs := flag.NewFlagSet("measstate", flag.ExitOnError)
+	jobsFile := fs.String("jobs", "", "json job list")
+	from := fs.Int("from", 0, "first job index")
+	fs.Parse(args)
+	raw, err := os.ReadFile(*jobsFile)
+	if err != nil {
+		panic(err)
+	}
+	var jobs []measJob
+	if err := json.Unmarshal(raw, &jobs); err != nil {
+		panic(err)
+	}
+	for k := *from; k < len(jobs); k++ {
+		j := jobs[k]
+		fmt.Fprintf(os.Stderr, "JOB %d\n", k)
+		g := hermes.NewGlobalVarsMain()
+		g.N = j.N
+		for i := range j.W {
+			g.W[i], _ = strconv.ParseFloat(j.W[i], 64)
+			g.WMIN[i], _ = strconv.ParseFloat(j.WMIN[i], 64)
+		}
+		g.BEGINN = 29000
+		g.Datum = hermes.DateConverter(j.Cent, hermes.DateFormat(j.Fmt))
+		f, err := os.Open(j.File)
+		if err != nil {
+			panic(err)
+		}
+		sc := bufio.NewScanner(f)
+		if j.CSV {
+			hermes.ExtractMeasuredDataCSV(sc, &g, j.Ident, j.File)
+		} else {
+			hermes.ExtractMeasuredDataTxt(sc, &g, j.Ident, j.File)
+		}
+		f.Close()
+		var fl []float64
+		fl = append(fl, g.WG[2][:j.N+1]...)
+		fl = append(fl, g.WNZ[0], g.KNZ1[0], g.KNZ2[0], g.KNZ3[0], g.KNZ4[0], g.KNZ5[0], g.KNZ6[0])
+		fl = append(fl, g.CN[1][:j.N]...)
+		emit(jobj{"id": j.ID, "nmess": g.NMESS, "mes": g.MES[0], "mess": g.MESS[0], "f": hxs(fl)})
+		stdout.Flush()
+	}
 }
